@@ -39,6 +39,12 @@ def coords_for(mask, kind):
     import lentil
     if kind == 'default':
         return None, None
+    if kind == 'global':
+        # one coordinate system for a whole segmented aperture: this segment sits far off its axis
+        n = mask.shape[0]
+        rr, cc = np.meshgrid(np.arange(n) - n // 2 + 25 * n, np.arange(mask.shape[1]) - mask.shape[1] // 2 - 17.5 * n, indexing='ij')
+        r = np.hypot(rr, cc)
+        return r / r.max(), np.arctan2(rr, cc)
     return lentil.zernike_coordinates(mask, shift=(0.5, -0.25), rotate=30)
 
 
@@ -60,8 +66,12 @@ def chk(case, acc, seed):
         acc.case(case, nontrivial=False, outcome='skipped')
         return
     tolc = 1e-10 + 1e-13 * cond
+    acc.cls('cond>=1e%d' % min(8, int(np.floor(np.log10(max(cond, 1))))))
     k = len(modes)
-    vecs = [np.eye(k)[i] for i in range(k)] + [np.array([0.7, -1.3, 0.45, 2.1, -0.6, 0.9, 1.7, -0.35][:k]) * (1 + 0.1 * (seed % 8))]
+    gen = np.array([0.7, -1.3, 0.45, 2.1, -0.6, 0.9, 1.7, -0.35][:k]) * (1 + 0.1 * (seed % 8))
+    # the generic vector also at nanometre scale (an OPD in metres) and with one coefficient 10^9 times smaller than the rest
+    mixed = gen.copy(); mixed[0] *= 1e-9
+    vecs = [np.eye(k)[i] for i in range(k)] + [gen * 3e-9, mixed, gen]
     sub_key = 'prefix' if sorted(modes) == list(range(1, k + 1)) else 'non-prefix'
     for vi, cvec in enumerate(vecs):
         sub = dict(case, coeff=vi)
@@ -71,32 +81,33 @@ def chk(case, acc, seed):
         opd = lentil.zernike_compose(mask, full, normalize=normalize, **kw)
         # compose == explicit sum of modes
         expl = sum(c * np.asarray(lentil.zernike(mask, m, normalize=normalize, **kw), dtype=float) for m, c in zip(modes, cvec))
-        if rm.maxerr(opd, expl) > 1e-12 * (1 + np.max(np.abs(expl))):
+        if rm.maxerr(opd, expl) > 1e-12 * np.max(np.abs(expl)):
             acc.violation('compose:index', sub, 'zernike_compose does not pair coefficient k with Noll index k+1')
         fit = lentil.zernike_fit(opd, mask, modes, normalize=normalize, **kw)
-        if rm.maxerr(fit, cvec) > tolc * (1 + np.max(np.abs(cvec))):
+        cs = np.max(np.abs(cvec))
+        if rm.maxerr(fit, cvec) > tolc * cs:
             acc.violation(f'fit:roundtrip:{sub_key}:{ckind}', sub, f'fit(compose(c)) = {np.round(fit, 6).tolist()} != c = {cvec.tolist()}')
         if vi == len(vecs) - 1:
             # the same OPD handed over in other memory layouts is the same OPD
             for lname, arr in (('fortran', np.asfortranarray(opd)), ('transposed-view', np.ascontiguousarray(opd.T).T), ('float32', opd.astype(np.float32))):
                 f2 = lentil.zernike_fit(arr, mask, modes, normalize=normalize, **kw)
-                if rm.maxerr(f2, fit) > (1e-5 if lname == 'float32' else tolc) * (1 + np.max(np.abs(cvec))):
+                if rm.maxerr(f2, fit) > (1e-6 * max(cond, 10) if lname == 'float32' else tolc) * np.max(np.abs(cvec)):
                     acc.violation(f'fit:memory-layout:{lname}', dict(sub, layout=lname), f'fit of the same OPD in {lname} layout: {np.round(f2, 6).tolist()} != {np.round(fit, 6).tolist()}')
                 if normalize:
                     r2 = lentil.zernike_remove(arr, mask, modes, **kw)
                     r1 = lentil.zernike_remove(opd, mask, modes, **kw)
-                    if rm.maxerr(np.asarray(r2, float)[on], np.asarray(r1, float)[on]) > (1e-5 if lname == 'float32' else tolc * 10) * (1 + np.max(np.abs(opd))):
+                    if rm.maxerr(np.asarray(r2, float)[on], np.asarray(r1, float)[on]) > (1e-6 * max(cond, 10) if lname == 'float32' else tolc * 10) * np.max(np.abs(opd)):
                         acc.violation(f'remove:memory-layout:{lname}', dict(sub, layout=lname), 'zernike_remove depends on the memory layout of the OPD')
         if normalize:
             # remove() has no normalize switch (always normalised modes)
-            bump = 0.3 * np.asarray(lentil.zernike(mask, max(modes) + 3, **kw), dtype=float) + 0.05 * on * np.cos(np.arange(mask.size).reshape(mask.shape))
+            bump = (0.3 * np.asarray(lentil.zernike(mask, max(modes) + 3, **kw), dtype=float) + 0.05 * on * np.cos(np.arange(mask.size).reshape(mask.shape))) * np.max(np.abs(cvec))
             for name, o in (('pure', opd), ('mixed', opd + bump)):
                 try:
                     res = lentil.zernike_remove(o, mask, modes, **kw)
                 except Exception as e:
                     acc.violation(f'remove:raises:{type(e).__name__}:{ckind}', sub, repr(e))
                     continue
-                scale = 1 + np.max(np.abs(o))
+                scale = np.max(np.abs(o))
                 # independent least-squares projection
                 Bm = B[:, on.ravel()].T
                 c_ls, *_ = np.linalg.lstsq(Bm, o[on], rcond=None)
@@ -124,7 +135,44 @@ def chk(case, acc, seed):
     acc.case(case, nontrivial=True, outcome=f'{sub_key}-{ckind}-{normalize}')
 
 
+def chk_after_error(case, acc, seed):
+    """fit / compose / remove give the same answers after calls that were (rightly) refused"""
+    import lentil
+    n = case['n']
+    A, B_ = masks(n)['disc-off'], masks(n)['hexagon'][:, :n] if False else masks(n)['disc']
+    B_ = np.pad(masks(n)['disc'], ((0, 0), (0, 1)))[:, :n + 1]        # another mask with the shape of A
+    c = np.array([0.3, -0.2, 0.5, 0.1])
+
+    def calls():
+        o = lentil.zernike_compose(B_, c)
+        return [o, lentil.zernike_fit(o, B_, [1, 2, 3, 4]), lentil.zernike_remove(o, B_, [2, 3]), lentil.zernike_basis(B_, [2, 5], vectorize=True, normalize=False)]
+
+    engine.reset_library_state()
+    cold = calls()
+    bads = (lambda: lentil.zernike_basis(A, [0, 1, 2]), lambda: lentil.zernike_fit(np.zeros(A.shape), A, [2, -1]),
+            lambda: lentil.zernike(A, 3, rho=np.ones(A.shape)), lambda: lentil.zernike_remove(np.zeros((3, 3)), A, [1, 2]),
+            lambda: lentil.zernike_compose(A, [0.1, 0.2], rho=np.ones((2, 2)), theta=np.ones((2, 2))),
+            lambda: lentil.zernike_basis(A, [3, 2, 0], vectorize=True), lambda: lentil.zernike_remove(np.zeros(A.shape), A, [2, 0]))
+    for bi, bad in enumerate(bads):
+        engine.reset_library_state()
+        try:
+            bad()
+            refused = False
+        except Exception:
+            refused = True
+        warm = calls()
+        for k, (a, b) in enumerate(zip(cold, warm)):
+            if not np.array_equal(np.asarray(a), np.asarray(b)):
+                acc.violation('history:after-refused-call', dict(case, call=k, refused_call=bi),
+                              f'after refused call #{bi} (raised: {refused}), call {k} on another mask of the same shape differs from the cold result by {rm.maxerr(np.asarray(a), np.asarray(b)):.3e}')
+                break
+    acc.cls('after-error')
+    acc.case(case, outcome='after-error')
+
+
 def t_mask(arg, acc):
+    if arg['shard'] == 0 and arg['mask'] == 'disc':
+        chk_after_error({'kind': 'aftererr', 'n': arg['n']}, acc, arg['seed'])
     tier, seed = arg['tier'], arg['seed']
     jm = 6 if tier == 'quick' else 8
     for r in range(1, jm + 1):
@@ -134,7 +182,7 @@ def t_mask(arg, acc):
             for modes in orders(sub):
                 acc.states += 1
                 for normalize in (True, False):
-                    for ck in ('default', 'supplied'):
+                    for ck in ('default', 'supplied') + (('global',) if arg['mask'] == 'disc' else ()):
                         chk({'kind': 'fit', 'n': arg['n'], 'mask': arg['mask'], 'modes': list(modes), 'normalize': normalize,
                              'coords': ck}, acc, seed)
 
@@ -162,4 +210,4 @@ def run(tier, seed, acc, procs=None):
 
 def replay(case, acc):
     seed = int(os.environ.get('VERIF_SEED', '0') or 0)
-    chk(case, acc, seed)
+    (chk_after_error if case['kind'] == 'aftererr' else chk)(case, acc, seed)
